@@ -43,6 +43,11 @@ template<class T, int C, int R> static void t_shape(Rng& g, int n) {
 		{ auto X = A; X += s; EW("addeq_ms", X, A[c][r] + s) } { auto X = A; X -= s; EW("subeq_ms", X, A[c][r] - s) } { auto X = A; ++X; EW("preinc_m", X, A[c][r] + 1) } { auto X = A; --X; EW("predec_m", X, A[c][r] - 1) }
 		if (!std::is_integral<T>::value) { auto A2 = A; for (int c = 0; c < C; ++c) for (int r = 0; r < R; ++r) A2[c][r] = (T)((long long)A[c][r] * 8); T d = (T)(1 << g.range(0, 3)); auto P = A2 / d; std::string fn = nm("div_ms", {C, R}, ty); count(fn);
 			for (int c = 0; c < C; ++c) for (int r = 0; r < R; ++r) if (P[c][r] != A2[c][r] / d) fail(fn, "element", ms(A2) + " / " + str((double)d), str((double)(A2[c][r] / d)), str((double)P[c][r])); }
+		// division by a scalar, binary and compound, every element type: the entries are exact multiples of the divisor, so the quotient is
+		// exact in every type (a reciprocal-multiply rewrite gives 0 for integers and a last-bit error for 21/7, 49/49 ...)
+		{ T k = (T)g.range(2, 7); if (it % 5 == 0) k = (T)49; auto A3 = A; for (int c = 0; c < C; ++c) for (int r = 0; r < R; ++r) A3[c][r] = (T)(A[c][r] * k);
+		  { auto P = A3 / k; std::string fn = nm("div_ms", {C, R}, ty); count(fn); for (int c = 0; c < C; ++c) for (int r = 0; r < R; ++r) if (P[c][r] != (T)(A3[c][r] / k)) fail(fn, "exact quotient", ms(A3) + " / " + str((double)k), str((double)(T)(A3[c][r] / k)), str((double)P[c][r])); }
+		  { auto X = A3; X /= k; std::string fn = nm("diveq_ms", {C, R}, ty); count(fn); for (int c = 0; c < C; ++c) for (int r = 0; r < R; ++r) if (X[c][r] != (T)(A3[c][r] / k)) fail(fn, "exact quotient", ms(A3) + " /= " + str((double)k), str((double)(T)(A3[c][r] / k)), str((double)X[c][r])); } }
 		for (int i = 0; i < C; ++i) { auto col = glm::column(A, i); std::string fn = nm("colget", {C, R, i}, ty); count(fn); for (int r = 0; r < R; ++r) if (col[r] != A[i][r]) fail(fn, "element", ms(A), str((double)A[i][r]), str((double)col[r]));
 			auto M = glm::column(A, i, w); fn = nm("colset", {C, R, i}, ty); count(fn); for (int c = 0; c < C; ++c) for (int r = 0; r < R; ++r) { T e = (c == i) ? w[r] : A[c][r]; if (M[c][r] != e) fail(fn, "element", ms(A) + " <- " + vs(w), str((double)e), str((double)M[c][r])); } }
 		for (int i = 0; i < R; ++i) { auto row = glm::row(A, i); std::string fn = nm("rowget", {C, R, i}, ty); count(fn); for (int c = 0; c < C; ++c) if (row[c] != A[c][i]) fail(fn, "element", ms(A), str((double)A[c][i]), str((double)row[c]));
